@@ -32,6 +32,22 @@ def cases(ctx):
     # regression witness of the repaired defect F3
     yield {"shape": ("S", [[(F(0), F(0)), (F(1), F(-1)), (F(2), F(1)), (F(3), F(0))], [(F(3), F(0)), (F(3), F(3))],
                            [(F(3), F(3)), (F(0), F(3)), (F(0), F(0))]])}
+    # bounded components whose holes have more total perimeter than the outer boundary; unbounded connected shapes
+    for m in (2, 3):
+        side = F(4 * m)
+        outer = G.verts_to_jordan(G.ccw([(F(0), F(0)), (side, F(0)), (side, side), (F(0), side)]))
+        holes = []
+        for a in range(m):
+            for b in range(m):
+                x0, y0 = F(4 * a) + F(1, 2), F(4 * b) + F(1, 2)
+                holes.append(G.verts_to_jordan(G.cw([(x0, y0), (x0 + 3, y0), (x0 + 3, y0 + 3), (x0, y0 + 3)])))
+        yield {"shape": ("C", [outer] + holes)}
+        yield {"shape": ("D", [("C", [outer] + holes), ("S", G.verts_to_jordan(G.ccw([(F(-9), F(0)), (F(-5), F(0)), (F(-7), F(3))])))])}
+    comb = G.verts_to_jordan(G.cw([(F(1), F(1)), (F(9), F(1)), (F(9), F(2)), (F(2), F(2)), (F(2), F(3)), (F(9), F(3)), (F(9), F(4)), (F(2), F(4)),
+                                   (F(2), F(5)), (F(9), F(5)), (F(9), F(6)), (F(1), F(6))]))
+    yield {"shape": ("C", [G.verts_to_jordan(G.ccw([(F(0), F(0)), (F(10), F(0)), (F(10), F(7)), (F(0), F(7))])), comb])}
+    for i in range(ctx.n(4, 60)):
+        yield {"shape": G.unbounded_connected(rng, R=rng.choice([8, 12]))}
     for i in range(ctx.n(40, 600)):
         s = G.any_shape(rng, R=rng.choice([6, 12]), kinds=("S", "S", "U", "C", "D"))
         degs = [(1,), (1, 2), (1, 2, 3), (2, 3), (3,)][i % 5]
